@@ -389,4 +389,6 @@ def run(run, model):
     run.try_rule(r06_8, model)
     run.try_rule(r06_9, model)
     run.try_rule(r06_10, model)
+    from rules import c01
+    run.try_rule(c01.r01_5, model, ("crates/compiler/src/compile_match.rs",))
     run.assume("tast_builder::build_pat and compile_struct_case read struct-pattern arguments positionally in declaration order (read and confirmed)")
